@@ -26,23 +26,7 @@ verus! {
 // gamma (src/codes/gamma.rs)
 // ---------------------------------------------------------------------------
 
-pub open spec fn gamma_lambda(n: u64) -> nat {
-    log2f((n + 1) as u64)
-}
-/// unary(lambda) followed by the lambda low bits of n+1
-pub open spec fn gamma_bits(le: bool, n: u64) -> Seq<bool> {
-    unary(gamma_lambda(n)) + field(le, (n + 1) as u64, gamma_lambda(n))
-}
-pub open spec fn gamma_len(n: u64) -> nat {
-    2 * gamma_lambda(n) + 1
-}
-
-pub proof fn lemma_gamma_lambda(n: u64, m: u64, lg: u32)
-    requires n < u64::MAX, m == n + 1, lg < 64, pow2(lg as nat) <= m, (m as nat) < pow2((lg + 1) as nat),
-    ensures gamma_lambda(n) == lg, gamma_lambda(n) <= 63,
-{
-    lemma_log2f(m, lg as nat);
-}
+//@INCLUDE gamma_defs.inc
 
 //@FN file=src/codes/gamma.rs item=- name=len_gamma_param
 //@SIG pub fn len_gamma_param(mut n: u64) -> (r: usize)
@@ -61,26 +45,6 @@ pub proof fn lemma_gamma_lambda(n: u64, m: u64, lg: u32)
 //@PROOF after=<<let lambda = n.ilog2();>> proof { lemma_gamma_lambda(n0, n, lambda); }
 //@PROOF[checks] after=<<n ^= 1 << lambda;>> proof { lemma_xor_top(E::little(), (n0 + 1) as u64, lambda as nat, n); }
 //@END
-
-pub proof fn lemma_gamma_split(s: Seq<bool>, p: int, le: bool, x: u64)
-    requires x < u64::MAX, starts(s, p, gamma_bits(le, x)),
-    ensures
-        gamma_lambda(x) <= 63,
-        starts(s, p, unary(gamma_lambda(x))),
-        starts(s, p + gamma_lambda(x) + 1, field(le, (x + 1) as u64, gamma_lambda(x))),
-        gamma_bits(le, x).len() == gamma_len(x),
-{
-    lemma_log2f_exists((x + 1) as u64);
-    let lam = gamma_lambda(x);
-    let u = unary(lam);
-    let m = field(le, (x + 1) as u64, lam);
-    let w = gamma_bits(le, x);
-    assert(w == u + m);
-    assert(s.subrange(p, p + u.len()) =~= w.subrange(0, u.len() as int));
-    assert(w.subrange(0, u.len() as int) =~= u);
-    assert(s.subrange(p + u.len(), p + u.len() + m.len()) =~= w.subrange(u.len() as int, w.len() as int));
-    assert(w.subrange(u.len() as int, w.len() as int) =~= m);
-}
 
 pub proof fn lemma_gamma_q<E: Endianness>(s: Seq<bool>, p: int, len: u64)
     requires
